@@ -18,7 +18,7 @@ from ..engine.nandomain import F, NanInterp, nan
 from ..engine.report import AnalysisError, Run
 from ..engine.resolver import ClassInfo, FuncInfo, Program, body_walk
 from ..engine.util import canon, method_call, nodes_with_call, u
-from ._c06_util import Flow, HelperCalls, Site, first_run_sync_name, lifted, names_eq, pruned, result_sites, seg, select_ifexp, spliced, src_patch, stmt_patch, unawait
+from ._c06_util import Flow, HelperCalls, Site, first_run_sync_name, lifted, names_eq, pruned, result_sites, seg, select_ifexp, src_patch, stmt_patch, unawait
 
 STEPS = "timeseries.formula_engine._formula_steps"
 EVAL = "timeseries.formula_engine._formula_evaluator"
